@@ -1,5 +1,5 @@
 (** C08 - interpolants reproduce their data (SplineInterpolator1D / 2D of spline_interpolators.py).
-    Only statements, [exact]s and [Print Assumptions]; the proofs live in InterpTheory.v and Interp2D.v (model: InterpModel.v,
+    Only statements, [exact]s and [Print Assumptions]; the proofs live in InterpTheory.v, Interp2D.v and GrevilleTheory.v (model: InterpModel.v,
     evaluation: SplineModel.v / SplineTheory.v of C07, seed: CollocRow.row_dot_is_eval) and InterpQc.v (the
     instance on Qc that is extracted and run, and the witnesses computed with it).  Every theorem holds for
     every field with a compatible decidable total order ([sp_laws]), every degree and every size.
@@ -12,8 +12,9 @@
     BY the check A.X = B ([c08_lin_solve_spec] holds by construction); LAPACK / SuperLU are modelled by it.
 
     NOT proved here (see the evidence, "uncovered_clauses"):
-    - reproduction of polynomials of degree 1..p on clamped spaces (degree 0 is [c08_interp1d_const] +
-      [c08_const_spline]); tested exactly for degrees 1..5;
+    - reproduction of polynomials of degree 2..p on clamped spaces (Marsden's identity is not formalised); degree 0 is
+      [c08_interp1d_const] + [c08_const_spline], degree 1 is [c08_interp1d_reproduces_linear] (Greville identity
+      [c08_greville_identity]); degrees 2..5 are tested exactly;
     - non-singularity of the collocation matrix for all admissible spaces (Schoenberg-Whitney): the theorems that
       need uniqueness carry the per-instance certificate [ip_inverse_ok] (checked at run time);
     - floating-point rounding, LAPACK ?gbtrf/?gbtrs, SuperLU.
@@ -24,7 +25,7 @@
     nbasis.  [c08_lww_row_pinned_tree] documents the last-write-wins assignment of the pinned tree (defect 10). *)
 From Coq Require Import List Arith Lia ZArith Bool QArith Qcanon.
 Import ListNotations.
-From PGV Require Import BasisCoxDeBoor CoxDeBoorGen FindSpan CubicUniform CollocRow Sums SplineModel SplineTheory SplineQc InterpModel InterpTheory Interp2D InterpQc.
+From PGV Require Import BasisCoxDeBoor CoxDeBoorGen FindSpan CubicUniform CollocRow Sums SplineModel SplineTheory SplineQc InterpModel InterpTheory Interp2D QuadTheory GrevilleTheory QuadSumTheory CirculantTheory InterpQc.
 
 (** the solver: a returned X has the shape n x m and satisfies A.X = B (by construction: the check is part of the definition) *)
 Theorem c08_lin_solve_spec :
@@ -224,6 +225,27 @@ Theorem c08_interp1d_const :
 Proof. exact (@ip_interp1d_const). Qed.
 Print Assumptions c08_interp1d_const.
 
+(** complex data (zgbtrs on the real collocation matrix): a complex coefficient vector zr + i zi that solves C (zr + i zi) = ur + i ui - componentwise, C being real - is the pair of the real interpolants of ur and ui (corollary of uniqueness / c08_interp1d_linear); with c08_interp1d_exact both parts take their data values *)
+Theorem c08_interp1d_complex :
+  forall (F : Type) (K : sp_ops F),
+  sp_laws K ->
+  forall (knots : list F) (degree : nat) (periodic cubic : bool) (xs : list F)
+  (A Ainv : list (list F)) (ur ui cr ci : list F) (zr zi : nat -> F),
+  let nb := ip_nbasis F K knots degree periodic cubic in
+  ip_colloc F K nb knots degree periodic cubic xs = SpOk A ->
+  ip_inverse_ok F K nb A Ainv = true ->
+  ip_interp1d F K knots degree periodic cubic xs ur = SpOk cr ->
+  ip_interp1d F K knots degree periodic cubic xs ui = SpOk ci ->
+  (forall i : nat,
+  (i < nb)%nat ->
+  ip_sum F K nb (fun k : nat => spmul K (ip_mget F K A i k) (zr k)) = nth i ur (sp0 K)) ->
+  (forall i : nat,
+  (i < nb)%nat ->
+  ip_sum F K nb (fun k : nat => spmul K (ip_mget F K A i k) (zi k)) = nth i ui (sp0 K)) ->
+  forall k : nat, (k < nb)%nat -> zr k = nth k cr (sp0 K) /\ zi k = nth k ci (sp0 K).
+Proof. exact (@ip_interp1d_complex). Qed.
+Print Assumptions c08_interp1d_complex.
+
 (** rows of the collocation matrix sum to one: uniform-cubic path, any points *)
 Theorem c08_rows_sum_one_cubic :
   forall (F : Type) (K : sp_ops F),
@@ -271,6 +293,97 @@ Theorem c08_const_spline :
   sp_nu_eval_1d_scalar F K x knots degree c 0 = SpOk kappa.
 Proof. exact (@ip_const_spline_nu). Qed.
 Print Assumptions c08_const_spline.
+
+(** the de Boor step on a span, for any coefficients a: sum_i a_i N_{i,k+1}(x) = sum_i (a_i w_i + a_{i-1} (1 - w_i)) N_{i,k}(x), N = the Cox - de Boor triangle above the indicator of the span (= Algorithm A2.2 for every x, CoxDeBoorGen.basis_eq_delta) *)
+Theorem c08_deboor_step :
+  forall (F : Type) (K : sp_ops F),
+  sp_laws K ->
+  forall (knots : list F) (x : F) (s : nat),
+  sp_sorted F K knots ->
+  sp_span_ok F K knots s ->
+  forall (a : nat -> F) (k i0 : nat),
+  (i0 + S k)%nat = s ->
+  sumn F (sp0 K) (spadd K) (S (S k))
+  (fun q : nat =>
+  spmul K (a (i0 + q)%nat)
+  (Ng F (sp0 K) (spadd K) (spmul K) (spsub K) (spdiv K) (sp_kn F K knots) x
+  (speqb K) (delta F (sp0 K) (sp1 K) s) (S k) (i0 + q))) =
+  sumn F (sp0 K) (spadd K) (S k)
+  (fun q : nat =>
+  spmul K
+  (spadd K
+  (spmul K (a (i0 + S q)%nat)
+  (spdiv K (spsub K x (sp_kn F K knots (i0 + S q)))
+  (spsub K (sp_kn F K knots (i0 + S q + k + 1)) (sp_kn F K knots (i0 + S q)))))
+  (spmul K (a (i0 + q)%nat)
+  (spdiv K (spsub K (sp_kn F K knots (i0 + S q + k + 1)) x)
+  (spsub K (sp_kn F K knots (i0 + S q + k + 1)) (sp_kn F K knots (i0 + S q))))))
+  (Ng F (sp0 K) (spadd K) (spmul K) (spsub K) (spdiv K) (sp_kn F K knots) x
+  (speqb K) (delta F (sp0 K) (sp1 K) s) k (i0 + S q))).
+Proof. exact (@ip_deboor_step). Qed.
+Print Assumptions c08_deboor_step.
+
+(** Greville identity: sum_i (t_{i+1} + ... + t_{i+k}) N_{i,k}(x) = k x on the span, every degree k <= s, every x *)
+Theorem c08_greville_identity :
+  forall (F : Type) (K : sp_ops F),
+  sp_laws K ->
+  forall (knots : list F) (x : F) (s : nat),
+  sp_sorted F K knots ->
+  sp_span_ok F K knots s ->
+  forall k : nat,
+  (k <= s)%nat ->
+  sumn F (sp0 K) (spadd K) (S k)
+  (fun q : nat =>
+  spmul K (ip_T F K knots k (s - k + q))
+  (Ng F (sp0 K) (spadd K) (spmul K) (spsub K) (spdiv K) (sp_kn F K knots) x
+  (speqb K) (delta F (sp0 K) (sp1 K) s) k (s - k + q))) = spmul K (sp_ofnat F K k) x.
+Proof. exact (@ip_greville_T). Qed.
+Print Assumptions c08_greville_identity.
+
+(** a spline whose coefficients are alpha + beta xi_j (xi_j the knot averages, [ip_greville]) is the linear function alpha + beta x on the whole closed domain *)
+Theorem c08_linear_spline :
+  forall (F : Type) (K : sp_ops F),
+  sp_laws K ->
+  forall (knots : list F) (p : nat) (c : list F) (alpha beta x : F),
+  sp_sorted F K knots ->
+  (2 * p + 1 < length knots)%nat ->
+  (1 <= p)%nat ->
+  sp_lt K (sp_kn F K knots p) (sp_kn F K knots (S p)) ->
+  sp_lt K (sp_kn F K knots (length knots - p - 2)) (sp_kn F K knots (length knots - 1 - p)) ->
+  sp_le K (sp_kn F K knots p) x ->
+  sp_le K x (sp_kn F K knots (length knots - 1 - p)) ->
+  length c = (length knots - p - 1)%nat ->
+  (forall j : nat,
+  (j < length c)%nat -> nth j c (sp0 K) = spadd K alpha (spmul K beta (ip_greville F K knots p j))) ->
+  sp_nu_eval_1d_scalar F K x knots p c 0 = SpOk (spadd K alpha (spmul K beta x)).
+Proof. exact (@ip_linear_spline). Qed.
+Print Assumptions c08_linear_spline.
+
+(** polynomials of degree <= 1 are reproduced everywhere: on a clamped general space the interpolant of the data alpha + beta x_i at ANY interpolation points of the domain (checked inverse) evaluates to alpha + beta x at every x of the domain *)
+Theorem c08_interp1d_reproduces_linear :
+  forall (F : Type) (K : sp_ops F),
+  sp_laws K ->
+  forall (knots : list F) (p : nat) (xs : list F) (A Ainv : list (list F))
+  (u c : list F) (alpha beta : F),
+  let nb := ip_nbasis F K knots p false false in
+  sp_sorted F K knots ->
+  (2 * p + 1 < length knots)%nat ->
+  sp_lt K (sp_kn F K knots p) (sp_kn F K knots (S p)) ->
+  sp_lt K (sp_kn F K knots (length knots - p - 2)) (sp_kn F K knots (length knots - 1 - p)) ->
+  ip_colloc F K nb knots p false false xs = SpOk A ->
+  ip_inverse_ok F K nb A Ainv = true ->
+  (forall i : nat,
+  (i < nb)%nat ->
+  sp_le K (sp_kn F K knots p) (nth i xs (sp0 K)) /\
+  sp_le K (nth i xs (sp0 K)) (sp_kn F K knots (length knots - 1 - p))) ->
+  ip_interp1d F K knots p false false xs u = SpOk c ->
+  (forall i : nat, (i < nb)%nat -> nth i u (sp0 K) = spadd K alpha (spmul K beta (nth i xs (sp0 K)))) ->
+  forall x : F,
+  sp_le K (sp_kn F K knots p) x ->
+  sp_le K x (sp_kn F K knots (length knots - 1 - p)) ->
+  sp_nu_eval_1d_scalar F K x knots p c 0 = SpOk (spadd K alpha (spmul K beta x)).
+Proof. exact (@ip_interp1d_reproduces_linear). Qed.
+Print Assumptions c08_interp1d_reproduces_linear.
 
 (** the bookkeeping at the heart of the headline: a row written by np.add.at (repeated columns add up), dotted with ANY vector, is the sum eval forms through the same column map - for EVERY column map into [0, n), no injectivity *)
 Theorem c08_row_acc_dot :
